@@ -4,4 +4,4 @@ from props.common import corpus_check
 
 
 def run(ctx):
-    return corpus_check(ctx, "C02", oracles.c02)
+    return corpus_check(ctx, "C02", oracles.c02, l1_oracle=lambda it: oracles.files_c02(it["impl"]["stubs"]))
